@@ -186,7 +186,8 @@ BAD_ARGS = [("set", "", ""), ("import", "import"), ("import", "from"), ("include
 
 
 def d_grammar(tier):
-    leaves = [TXT, ("expr", "s", " ")]
+    # the multi-line comment makes every later ParseError line depend on newlines inside comments
+    leaves = [TXT, ("expr", "s", " "), ("cmt", "#", " a\n b\n")]
     heads = T.std_heads(conds=("n",), seqs=("xs",), elifs=(), excepts=("",), try_full=False,
                         loop_else=False)
     return T.Grammar(leaves, [], heads, 2), (2 if tier == "quick" else 3)
